@@ -56,6 +56,38 @@ Definition case_code (alts : list (Z * Z)) (l : lheap) (r : addr) (l' : lheap) (
   SL [SZ (classify (spec_canon l' r') (model_canon alts l r) (spec_canon l r));
       SZ (if F04 alts l then 1 else 0); SZ (if wf_heap l r && wf_heap l' r' then 1 else 0)].
 
+(* several top-level conversions sharing ONE ToDAOState and ONE FromDAOState (a graph with several roots converted root by
+   root): the roots are the elements of the single collection field of a harness-side holder object at address [h];
+   the holder itself is not converted, it only carries the roots (repetitions allowed: the same DAO converted twice).
+   Correctness of the shared FromDAOState for two roots is C04_state_reuse_safe; the general list is compared. *)
+Definition round_trip_multi (alts : list (Z * Z)) (l : lheap) (h : addr) : option (heap * addr * nat) :=
+  match heap_of l h with
+  | Some (mkObj c sc [(t, rs)]) =>
+      match walk_list (walk (P_todao alts) (heap_of l) (S (length l))) rs st0 with
+      | Some (ds, s1) =>
+          match walk_list (walk (P_fromdao alts) (dst s1) (S (nxt s1))) ds st0 with
+          | Some (bs, s2) => Some (upd (dst s2) (nxt s2) (mkObj c sc [(t, bs)]), nxt s2, S (nxt s2))
+          | None => None
+          end
+      | None => None
+      end
+  | _ => None
+  end.
+Definition model_canon_multi (alts : list (Z * Z)) (l : lheap) (h : addr) : sx :=
+  match round_trip_multi alts l h with
+  | None => SL [SZ (-2)%Z]
+  | Some (hp, r, n) => sx_canon (canon hp n r)
+  end.
+Definition case_code_multi (alts : list (Z * Z)) (l : lheap) (h : addr) (l' : lheap) (h' : addr) : sx :=
+  SL [SZ (classify (spec_canon l' h') (model_canon_multi alts l h) (spec_canon l h));
+      SZ (if F04 alts l then 1 else 0); SZ (if wf_heap l h && wf_heap l' h' then 1 else 0)].
+
+Example multi_root_example :
+  let l := [(0, mkObj 1 [7%Z] [(1%Z, [1])]); (1, mkObj 2 [] [(3%Z, [1])]); (2, mkObj 1 [8%Z] [(1%Z, [1])]);
+            (3, mkObj 99 [] [(0%Z, [0; 2; 0])])] in
+  model_canon_multi [] l 3 = spec_canon l 3.
+Proof. vm_compute. reflexivity. Qed.
+
 (* ---------------------------------------------------------------- refutation witnesses *)
 (* C04-a: Backreference (class 10, alternatively mapped by class 11) <-> Reference (class 20), conversion
    started at the alternatively mapped object: the Reference of the result points to the mapping object. *)
